@@ -215,7 +215,23 @@ func gen18(r *Rng, depth int) []litem18 {
 			}
 			items = append(items, it)
 		default:
-			items = append(items, litem18{kind: "out", toks: []string{"acc"}})
+			if r.Bool() {
+				items = append(items, litem18{kind: "out", toks: []string{"acc"}})
+				break
+			}
+			// a function written inside one tag, with return statements (the separator between
+			// return and its value is layout too), and loops that return
+			body := [][]string{
+				{"return", "a", "+", "1"},
+				{"if", "(", "a", "==", "3", ")", "{", "return", `"three"`, "}", "return", "a"},
+				{"let", "q", "=", "a", "*", "2", ";", "return", "q"},
+				{"return", "[", "a", ",", "n", "]", "[", "0", "]"},
+			}[r.Intn(4)]
+			def := append(append([]string{"let", "fr", "=", "fn", "(", "a", ")", "{"}, body...), "}")
+			items = append(items, litem18{kind: "silent", stmts: [][]string{def}}, litem18{kind: "out", toks: append(append([]string{"fr", "("}, pick()...), ")")})
+			if r.Bool() {
+				items = append(items, litem18{kind: "out", toks: []string{"for", "(", "x", ")", "in", "[", "1", ",", "2", "]", "{", "return", "x", "+", "n", "}"}})
+			}
 		}
 	}
 	return items
@@ -225,7 +241,7 @@ func init() {
 	register("C18", func(e *Env) {
 		renderPrelude()
 		e.perShard = 60
-		e.rep.Rule = "generated programs as token lists (let, assignment, expression statements, output tags, if/else, for, function definition + call, text; nesting depth 2), each rendered in its canonical layout (one statement per tag, single spaces) and in re-layouts: random separators from {space, spaces, tab, newline, CRLF, # line comment, blank lines} between all tokens, random tag padding, <%# %> comment tags between items, every random cut of a run of silent statements into tags with separators {; newline}, statements placed after the closing brace of if / for / fn in the same tag; oracle: every re-layout renders exactly what the canonical layout renders (errors equal up to the line number); distinct by canonical source"
+		e.rep.Rule = "generated programs as token lists (let, assignment, expression statements, output tags, if/else, for, function definition + call (multi-tag bodies, and single-tag bodies with return statements), text; nesting depth 2), each rendered in its canonical layout (one statement per tag, single spaces) and in re-layouts: random separators from {space, spaces, tab, newline, CRLF, # line comment, blank lines} between all tokens, random tag padding, <%# %> comment tags between items, every random cut of a run of silent statements into tags with separators {; newline}, statements placed after the closing brace of if / for / fn in the same tag; oracle: every re-layout renders exactly what the canonical layout renders (errors equal up to the line number); distinct by canonical source"
 		binds := []Bind{{"n", vInt(3)}, {"s", vStr("str<")}, {"t", vBool(true)}, {"f", vBool(false)}, {"xs", vSlice("iface", vInt(7), vStr("e"))},
 			{"m", vMap("string", "iface", vStr("a"), vInt(1))}, {"o", vT1("o")}, {"acc", vInt(0)}, {"Name", vStr("top")}}
 		n := 220
